@@ -24,6 +24,143 @@ PROFILES = [
 ]
 
 
+# Hand-written programs for the parts of the language reference the generator does not reach: ranges that count down, fp.empty
+# with one to three dimensions, enumerate / zip, slices, rows shared by reading them out of a list, tuple fields, while loops,
+# early returns from nested loops, nested with-blocks.  Signature as the generated programs: (x, y, xs, k), k in 1..4.
+HAND = {
+    'h4_countdown': """@fp.fpy
+def h4_countdown(x: fp.Real, y: fp.Real, xs: list[fp.Real], k: fp.Real):
+    acc = x
+    for i in range(k, 0, -1):
+        acc = acc * 2 + i
+    return acc, range(k + 2, 0, -2), range(0, k, -1), range(k, k, -1), range(k, -k, -3)""",
+    'h4_horner': """@fp.fpy
+def h4_horner(x: fp.Real, y: fp.Real, xs: list[fp.Real], k: fp.Real):
+    acc = 0
+    for i in range(len(xs) - 1, -1, -1):
+        with fp.MPFloatContext(6):
+            acc = acc * y + xs[i]
+    return acc""",
+    'h4_reverse': """@fp.fpy
+def h4_reverse(x: fp.Real, y: fp.Real, xs: list[fp.Real], k: fp.Real):
+    n = len(xs)
+    out = fp.empty(n)
+    for i in range(n - 1, -1, -1):
+        out[n - 1 - i] = xs[i]
+    return out, [xs[j] for j in range(n - 1, -1, -2)]""",
+    'h4_range_steps': """@fp.fpy
+def h4_range_steps(x: fp.Real, y: fp.Real, xs: list[fp.Real], k: fp.Real):
+    return range(1, 7, k), range(7, 1, -k), range(-3, 3, k), range(3, -3, -k), range(k, 1), range(0 - k)""",
+    'h4_empty1': """@fp.fpy
+def h4_empty1(x: fp.Real, y: fp.Real, xs: list[fp.Real], k: fp.Real):
+    a = fp.empty(k)
+    b = a
+    for i in range(k):
+        a[i] = x + i
+    return a, b, len(b)""",
+    'h4_empty2': """@fp.fpy
+def h4_empty2(x: fp.Real, y: fp.Real, xs: list[fp.Real], k: fp.Real):
+    a = fp.empty(k, 2)
+    for i in range(k):
+        for j in range(2):
+            a[i][j] = i * 2 + j
+    r = a[0]
+    r[1] = y
+    return a, r""",
+    'h4_empty3': """@fp.fpy
+def h4_empty3(x: fp.Real, y: fp.Real, xs: list[fp.Real], k: fp.Real):
+    a = fp.empty(2, k, 2)
+    for i in range(2):
+        for j in range(k):
+            for l in range(2):
+                a[i][j][l] = (i * k + j) * 2 + l
+    return a""",
+    'h4_empty3_one_write': """@fp.fpy
+def h4_empty3_one_write(x: fp.Real, y: fp.Real, xs: list[fp.Real], k: fp.Real):
+    a = fp.empty(3, 2, 2)
+    for i in range(3):
+        for j in range(2):
+            for l in range(2):
+                a[i][j][l] = 0
+    a[1][0][1] = x
+    a[2][1][0] = y
+    return a, a[0][0][1], a[0][1][0]""",
+    'h4_empty_bad': """@fp.fpy
+def h4_empty_bad(x: fp.Real, y: fp.Real, xs: list[fp.Real], k: fp.Real):
+    a = fp.empty(k - 2)
+    return a, len(a)""",
+    'h4_empty_unwritten': """@fp.fpy
+def h4_empty_unwritten(x: fp.Real, y: fp.Real, xs: list[fp.Real], k: fp.Real):
+    a = fp.empty(k)
+    a[0] = x
+    t = a[k - 1]
+    return a, t""",
+    'h4_empty_read': """@fp.fpy
+def h4_empty_read(x: fp.Real, y: fp.Real, xs: list[fp.Real], k: fp.Real):
+    a = fp.empty(k)
+    a[0] = x
+    return a[k - 1] + 1""",
+    'h4_rows_shared': """@fp.fpy
+def h4_rows_shared(x: fp.Real, y: fp.Real, xs: list[fp.Real], k: fp.Real):
+    row = [x, y]
+    m = [row, row, [x, y]]
+    m[0][0] = k
+    n = [r for r in m]
+    n[2][1] = 7
+    return m, n, row""",
+    'h4_enumerate_zip': """@fp.fpy
+def h4_enumerate_zip(x: fp.Real, y: fp.Real, xs: list[fp.Real], k: fp.Real):
+    acc = 0
+    for i, e in enumerate(xs):
+        acc = acc + i * e
+    ys = [e + 1 for e in xs]
+    ps = [a * b for a, b in zip(xs, ys)]
+    return acc, ps, enumerate(ys)""",
+    'h4_slices': """@fp.fpy
+def h4_slices(x: fp.Real, y: fp.Real, xs: list[fp.Real], k: fp.Real):
+    a = xs[:k]
+    b = xs[k:]
+    a[0] = x
+    return a, b, xs, xs[1:k]""",
+    'h4_while_break': """@fp.fpy
+def h4_while_break(x: fp.Real, y: fp.Real, xs: list[fp.Real], k: fp.Real):
+    i = 0
+    t = x
+    while i < k:
+        with fp.MPFloatContext(4):
+            t = t / 3 + y
+        if t > 2:
+            return t, i
+        i = i + 1
+    return t, 0 - 1""",
+    'h4_nested_return': """@fp.fpy
+def h4_nested_return(x: fp.Real, y: fp.Real, xs: list[fp.Real], k: fp.Real):
+    for i in range(k):
+        for e in xs:
+            if e > i + 1:
+                return e, i
+    return x, k""",
+    'h4_nested_with': """@fp.fpy
+def h4_nested_with(x: fp.Real, y: fp.Real, xs: list[fp.Real], k: fp.Real):
+    with fp.MPFloatContext(8):
+        a = x / 3
+        with fp.MPFloatContext(3):
+            b = a + y / 3
+            with fp.REAL:
+                c = a * b
+        d = c / 3
+    return a, b, c, d, d / 3""",
+    'h4_tuple_fields': """@fp.fpy
+def h4_tuple_fields(x: fp.Real, y: fp.Real, xs: list[fp.Real], k: fp.Real):
+    t = (xs, [x, y])
+    u, v = t
+    v[0] = k
+    _, w = t
+    w[1] = 9
+    return t, u, v""",
+}
+
+
 def build(tier: str, seed: int, workdir: str, nprog: int, nvec: int, profiles=PROFILES, tag='c4'):
     rng = random.Random(seed * 7919 + 13)
     progs, stats = [], Counter()
@@ -38,6 +175,19 @@ def build(tier: str, seed: int, workdir: str, nprog: int, nvec: int, profiles=PR
             if isinstance(p, tuple):
                 stats[p[0]] += 1
                 continue
+            pid += 1
+            progs.append(p)
+    if tag == 'c4':
+        from .. import gen_prog
+        funcs, rej = gen_prog.load_programs(HAND, workdir, 'c4hand')
+        if rej:
+            raise core.MachineryError(f'a hand-written C04 program is rejected by the front end: {rej}')
+        for name, fn in funcs.items():
+            vec = progrun.input_vectors(rng, nvec * 2)
+            p = progrun.record_program(fn, pid, vec, HAND[name])
+            if isinstance(p, tuple):
+                raise core.MachineryError(f'hand-written C04 program {name} cannot be exported: {p}')
+            stats['hand_written'] += 1
             pid += 1
             progs.append(p)
     return progs, stats
